@@ -21,7 +21,7 @@ Definition ignores_underb (mk : modk) : bool :=
   | MWith | MOff | MAbove | MBelow | MFork | MBracket | MTry | MDipN _
   | MReduce | MScan | MFold | MRows | MEach | MInventory | MTable | MTuples | MGroup | MPartition
   | MSpawn | MPool | MRepeat | MRepeatWithInverse | MStencil | MReduceContent | MReduceDepth _
-  | MHandleSig | MBothImpl _ _ | MUnBothImpl _ _ => true
+  | MHandleSig | MBothImpl _ _ | MUnBothImpl _ _ | MDo => true
   | _ => false end.
 (** modifiers checked in context whose run-time form uses the stored signature: it must be the inferred one *)
 Definition needs_exactb (mk : modk) : bool :=
@@ -79,7 +79,7 @@ Definition mod_modelled (mk : modk) (nargs : nat) : bool :=
      | MReduce | MScan | MFold | MRows | MEach | MInventory | MTable | MTuples | MGroup | MPartition
      | MSpawn | MPool | MRepeat | MStencil | MReduceContent | MReduceDepth _
      | MHandleSig | MOnSub _ | MBothImpl 0 _ | MUnBothImpl 0 _), 1 => true
-  | (MFork | MBracket | MFill | MTry | MRepeatWithInverse), 2 => true
+  | (MFork | MBracket | MFill | MTry | MRepeatWithInverse | MDo), 2 => true
   | MTry, S (S (S _)) => true      (* any number of handlers *)
   | _, _ => false end.
 Fixpoint exec_modelled (n : node) : bool :=
